@@ -13,7 +13,7 @@ and the tree built from working_points; mesh samples carry the normal of the ver
 samples are affine combinations whose weights sum to one identically (polynomial identity), sample_poisson thins
 sample_dense(radius/2) and maps the kept indices back into that same dense set; point_order_direction and
 Curve2::from_points_ccw use the same index-ascent vote with the same threshold."""
-NOT_DECIDED = "exactness of kiddo, coverage/maximality of the Poisson selection, area proportionality of uniform sampling, hull geometry, ball pivoting"
+NOT_DECIDED = "exactness of kiddo, coverage/maximality of the Poisson selection, area proportionality of uniform sampling, hull construction (parry), ball pivoting; for the hull diameter only exhaustiveness of the pair scan is decided"
 ASSUMPTIONS = ["kiddo SquaredEuclidean queries take and return squared distances"]
 
 KD = 'common::kd_tree'
